@@ -509,8 +509,13 @@ func thresholdFromBoundedProbability(
 
 	// probability = 1 - (1-f)^sigma: since (1-f)^sigma's upper bound
 	// (hi) corresponds to probability's *lower* bound and vice versa.
-	probLo := new(big.Float).SetPrec(workPrec).Sub(one, hi)
-	probHi := new(big.Float).SetPrec(workPrec).Sub(one, lo)
+	// Round outward: probLo must stay a lower bound and probHi an upper
+	// bound of the true probability. With the default round-to-nearest,
+	// a hi (or lo) below 2^-workPrec makes 1-hi round *up* to exactly 1,
+	// both ends then agree on upperBound and a threshold one above the
+	// true floor is returned as "resolved".
+	probLo := new(big.Float).SetPrec(workPrec).SetMode(big.ToNegativeInf).Sub(one, hi)
+	probHi := new(big.Float).SetPrec(workPrec).SetMode(big.ToPositiveInf).Sub(one, lo)
 
 	thresholdLoFloat := new(big.Float).SetPrec(workPrec).Mul(
 		probLo,
